@@ -135,6 +135,12 @@ def build(prop, seed, prof):
             item.update({'kind': 'p_state', 'modes': gen.pick(rng, [None, {'master_identifier': ''},
                                                                    {'fsm_statecode': 2, 'fsm_statename': 'ELECTION'},
                                                                    {'degraded_mode': True}])})
+        elif kind == 'replay':
+            item = {'t': round(t, 4), 'kind': 'replay_note', 'inst': gen.pick(rng, reals), 'pick': rng.randrange(1000),
+                    'header': gen.pick(rng, [None, 0, 1, 2, 3, 5])}
+            if rng.random() < 0.6:
+                item['prefer'] = 'isolated'
+                item['pick'] = gen.pick(rng, [0, 0, 1, 2, item['pick']])
         elif kind == 'op':
             target = gen.pick(rng, reals)
             ns = gen.pick(rng, namespecs)
